@@ -494,18 +494,34 @@ def prepare(env, d):
     raise RuntimeError("unknown operation " + op)
 
 
+class ImplTimeout(BaseException):
+    pass
+
+
+def _alarm(signum, frame):
+    raise ImplTimeout()
+
+
 def perform(env, d, wrap=None, spoil=False):
     """run one call descriptor; returns {'ok': value} or {'raises': class name}.
     wrap(thunk) -> value runs the thunk under instrumentation.  spoil=True: after the result has been recorded, the
     list / dict the operation RETURNED is emptied by the caller — a returned container is the caller's to change,
     so this must not reach the tree (the snapshot taken next decides)."""
+    import signal
     thunk, post = prepare(env, d)
+    old = signal.signal(signal.SIGALRM, _alarm)
+    signal.alarm(30)             # a call that does not come back is reported, it does not hang the check
     try:
         v = thunk() if wrap is None else wrap(thunk)
+    except ImplTimeout:
+        return {"raises": "DidNotTerminate"}
     except RecursionError:
         raise
     except Exception as e:  # noqa: the class is the observable
         return {"raises": type(e).__name__}
+    finally:
+        signal.alarm(0)
+        signal.signal(signal.SIGALRM, old)
     res = {"ok": canon(env, post(v))}
     if spoil and isinstance(v, (list, dict)):
         v.clear()
